@@ -147,11 +147,20 @@ def part_weights(ctx, oq, n):
             continue
         x, assign, gid = build_tensor(rng, shape, axis if (nd > 1 or gs is not None) else None, gs, wd, classes=CLASSES,
                                       maxmag=min(1e30, torch.finfo(wd).max / 2))
+        u = rng.random()
+        lay = "contiguous"
+        if nd >= 2 and u < 0.35:  # same values in transposed storage, channels_last or a window of a larger buffer
+            if nd == 4 and u < 0.1:
+                x, lay = x.contiguous(memory_format=torch.channels_last), "channels_last"
+            else:
+                lay = "transposed" if u < 0.24 else "sliced"
+                x = next(gen.layouts(x, which=(lay,)))[1]
         desc = dict(part="weights", dtype=str(wd), qtype=qtn, axis=axis, group_size=gs, shape=list(shape),
-                    classes=sorted(set(assign)))
+                    classes=sorted(set(assign)), layout=lay)
         if not ctx.case(desc):
             continue
         ctx.count("weight_cases")
+        ctx.see("layouts", lay)
         sig0 = dict(site="quantize_weight", qtype=qtn if low else ("float8" if "float8" in qtn else "int8"),
                     dtype=str(wd))
         try:
